@@ -37,6 +37,9 @@ def gen(ch, tier):
     if profile == 'drop':
         net['dg_drop_64'] = ch.choice('drop', (2, 8))
     mtu = ch.choice('mtu', (None, 48, 64, 100, 280, 281, 300, 1000, 1400))
+    if ch.coin('mtu.any', 1, 3):
+        # any MTU: the sizing arithmetic has CBOR head-size boundaries (23/24, 255/256, 65535/65536 octets) that move with it
+        mtu = 33 + ch.pick('mtu.r', 300)
     sends = []
     for ix in range(1 + ch.pick('nsend', 5)):
         base = (mtu or 300)
@@ -74,7 +77,13 @@ def gen(ch, tier):
 def bundle_bytes(tag, plen):
     ''' A real BPv7 encoding (the UDPCL receiver recognises a bundle as a CBOR array). '''
     pri = dict(flags=0, crc_type=1, destination='dtn://dst/app', source='dtn://src/', report_to='dtn:none', create_time=820000000000, seqno=tag, lifetime=1000)
-    return rfc9171.encode_bundle(pri, [dict(type=1, num=1, flags=0, crc_type=0, btsd=bc.body(tag, plen))])
+    body = bc.body(tag, plen)
+    if tag % 3 == 0 and plen > 1:
+        # every third bundle is half zero octets, so that segments end in 0x00 (which is also the padding octet)
+        import random
+        rnd = random.Random(tag)
+        body = body[:1] + bytes(octet if rnd.random() < 0.5 else 0 for octet in body[1:])
+    return rfc9171.encode_bundle(pri, [dict(type=1, num=1, flags=0, crc_type=0, btsd=body)])
 
 
 class Run:
